@@ -17,6 +17,36 @@ MICROMAP_READONLY = {"get", "iter", "len", "is_empty", "contains_key", "keys", "
                      "eq", "serialize", "capacity", "get_key_value", "index"}
 
 
+def asserted_precondition(body, f, site):
+    """fact f at `site` comes from an always-compiled assertion (the other outcome panics, Body.asserted) AND states a
+    documented precondition of the API: a vertex the call works on is present / its slot exists, an id is below the
+    capacity, the two endpoints of bind() differ.  Such an assertion cannot fire within any property's quantifier, so it is not a
+    condition that selects between doing and not doing something.  Any other asserted condition (`assert!(edges.len() < N)`)
+    stays a condition: it may stop a call the property says completes."""
+    if not body.asserted(f, site):
+        return False
+    from core import strip_load as sl
+    name = getattr(body, "name", "")
+    if f[0] == "in" and f[2] == frozenset(["Some"]) and sl(f[1])[0] == "discr":
+        o = sl(sl(f[1])[1])
+        if o[0] == "opt" and sl(o[1])[0] == "elem" and sl(sl(o[1])[1])[0] == "field" and sl(sl(o[1])[1])[2] in ("Sodg::vertices", "Sodg::stores", "Sodg::branches"):
+            return True
+    if f[0] in ("in", "notin") and name not in ("add", "next_id", "empty"):
+        x = sl(f[1])
+        if x[0] == "field" and x[2] == "Vertex::branch" and sl(x[1])[0] == "elem" and sl(sl(x[1])[1])[0] == "field" and sl(sl(x[1])[1])[2] == "Sodg::vertices":
+            if (f[0] == "notin" and f[2] == frozenset([0])) or (f[0] == "in" and 0 not in f[2]):
+                return True
+    if f[0] == "cmp" and f[1] == "!=" and name == "bind" and sl(f[2])[0] == "param" and sl(f[3])[0] == "param":
+        return True
+    if f[0] == "notin" and f[2] == frozenset([0]) and sl(f[1])[0] == "call" and sl(f[1])[1].split("::")[-1] == "capacity":
+        return True     # a graph that holds any vertex at all has a capacity above zero
+    if f[0] == "cmp" and f[1] == "<" and sl(f[2])[0] == "param":
+        r = sl(f[3])
+        if r[0] == "call" and r[1].split("::")[-1] == "capacity":
+            return True
+    return False
+
+
 class Ev:
     __slots__ = ("kind", "body", "site", "facts", "chain", "d", "uncond")
 
@@ -44,6 +74,11 @@ class Ev:
 
     def where(self):
         return self.body.where(self.site)
+
+    def conditions(self):
+        """the facts under which the event happens that *select* it: logging-level tests and asserted documented
+        preconditions (asserted_precondition) are not conditions"""
+        return [f for f in self.facts if "Level" not in repr(f) and not asserted_precondition(self.body, f, self.site)]
 
     def fn_key(self):
         b = self.root_body()
